@@ -25,7 +25,7 @@ fn vp_native_framing_decision_matrix_body() {
     // Transfer-Encoding as a list of field lines (a list split over several lines is the same list, RFC 9110 5.3)
     let te_values: [&[&str]; 10] = [&[], &["chunked"], &["Chunked"], &["foo, chunked"], &["identity,CHUNKED"], &["gzip"],
                                     &["identity", "chunked"], &["foo", "bar , Chunked"], &["chunked", "identity"], &["identity", "x-other"]];
-    let statuses = [100u16, 199, 200, 204, 206, 304, 404, 500];
+    let statuses = [100u16, 101, 199, 200, 204, 205, 206, 300, 304, 404, 500, 599];
     let body = b"5\r\nhello\r\n0\r\n\r\nTAIL";
     let mut cases = 0u64;
     for method in [Method::GET, Method::HEAD] {
